@@ -932,7 +932,10 @@ class World:
         if self.cls[i] == "coll" and any(m is None for m in self.members(i)):
             raise Skip()
         src = [i] if self.cls[i] != "coll" else self.members(i)
-        if dt is not None and not all(self.converts_exactly(k, dt) for k in src):
+        # a collection copy converts the members' data to `dtype` or, by default, to the dtype of the
+        # collection (members re-linked elsewhere may have another one)
+        eff_dt = dt if dt is not None else (self.dtn(i) if self.cls[i] == "coll" else None)
+        if eff_dt is not None and not all(self.converts_exactly(k, eff_dt) for k in src):
             raise Skip()
         how = d.get("how", "copy")
         if how == "ctor":
@@ -1197,7 +1200,8 @@ class World:
             i = self.rid(d["h"])
             if self.cls[i] == "raw" or self.dtn(i) not in DT:
                 raise Skip()
-            if self.cls[i] == "coll" and any(m is None for m in self.members(i)):
+            if self.cls[i] == "coll" and (any(m is None for m in self.members(i))
+                                          or not all(self.converts_exactly(m, self.dtn(i)) for m in self.members(i))):
                 raise Skip()
             o = self.objs[i]
             st = self.pde.MemoryStorage()
@@ -1237,7 +1241,8 @@ class World:
             fi = S["frames"][k]
             if KIND.get(self.dtn(fi), 9) > KIND.get(self.dtn(ti), -1) or not nice(self.full(fi), self.dtn(ti)):
                 raise Skip()
-            if self.cls[ti] == "coll" and any(m is None for m in self.members(ti)):
+            if self.cls[ti] == "coll" and (any(m is None for m in self.members(ti))
+                                           or not all(self.converts_exactly(m, self.dtn(ti)) for m in self.members(ti))):
                 raise Skip()
             res, err = self.try_real(lambda: st[k])
             if err is not None:
